@@ -484,6 +484,58 @@ func genMidWindow(rng *rand.Rand, n int) (cases []string) {
 	return cases
 }
 
+// byte-width-compensated matches: the needle's runes and their fold partners in the haystack
+// differ in encoded width rune by rune (k/K = 1/3 bytes, s/ſ = 1/2, å/Å = 2/3 …) while the
+// window as a whole has exactly len(sub) bytes, placed at the start, in the middle and —
+// the case a tightened scan bound loses — as the very last window of the haystack
+func genWidthCompensated(rng *rand.Rand, n int) (cases []string) {
+	initOrbits()
+	type pr struct{ a, b rune } // fold partners, width(b) > width(a)
+	byDiff := map[int][]pr{}
+	for _, o := range append(append([][]rune{}, bigOrbits...), twoOrbits...) {
+		for _, x := range o {
+			for _, y := range o {
+				if d := utf8.RuneLen(y) - utf8.RuneLen(x); d > 0 {
+					byDiff[d] = append(byDiff[d], pr{x, y})
+				}
+			}
+		}
+	}
+	var diffs []int
+	for d := range byDiff {
+		diffs = append(diffs, d)
+	}
+	sort.Ints(diffs)
+	if len(diffs) == 0 {
+		return nil
+	}
+	for i := 0; i < n; i++ {
+		d := diffs[rng.IntN(len(diffs))]
+		ps := byDiff[d]
+		p, q := ps[rng.IntN(len(ps))], ps[rng.IntN(len(ps))]
+		mid := randFill(rng, rng.IntN(3))
+		// needle: narrow p, …, wide q;  haystack window: wide p, …, narrow q (same byte length)
+		needle := string(p.a) + string(mid) + string(q.b)
+		win := string(p.b) + string(variantOf(rng, mid)) + string(q.a)
+		if len(win) != len(needle) {
+			win = string(p.b) + string(mid) + string(q.a)
+		}
+		if rng.IntN(2) == 0 {
+			needle, win = win, needle
+		}
+		pre := string(randFill(rng, 1+rng.IntN(3)))
+		switch rng.IntN(4) {
+		case 0:
+			cases = append(cases, mkCF(win+pre, needle))
+		case 1:
+			cases = append(cases, mkCF(pre+win+string(randFill(rng, 1+rng.IntN(2))), needle))
+		default:
+			cases = append(cases, mkCF(pre+win, needle)) // the last window
+		}
+	}
+	return cases
+}
+
 func genRandomCF(rng *rand.Rand, n int) (cases []string) {
 	initOrbits()
 	alpha := []rune{'k', 'K', 0x212A, 's', 'S', 0x17F, 'σ', 'ς', 'Σ', 'a', 'A', 'x', 'é', 'É', '€', 'θ', 'ϑ', 'ϴ', 'Θ', 'ǅ', 'ǆ', 'Ǆ', '😀', 'i', 'I', 'İ', 'ı'}
@@ -738,6 +790,7 @@ func genC13(rng *rand.Rand, tier string) (cases []string) {
 		cases = append(cases, genOrbitPositions(rng, bigOrbits, []int{0, 1, 2, 3}, 3)...)
 		cases = append(cases, genOrbitPositions(rng, twoOrbits, []int{0, 1, 2}, 2)...)
 		cases = append(cases, genMidWindow(rng, 20000)...)
+		cases = append(cases, genWidthCompensated(rng, 30000)...)
 		cases = append(cases, genRandomCF(rng, 60000)...)
 		cases = append(cases, genASCIICF(rng, 40000)...)
 		cases = append(cases, genInvalidCF(rng, 40000)...)
@@ -748,12 +801,13 @@ func genC13(rng *rand.Rand, tier string) (cases []string) {
 	// quick: every orbit member pair at every needle position, one random haystack offset each
 	cases = append(cases, genOrbitPositions(rng, bigOrbits, []int{rng.IntN(3)}, 1)...)
 	cases = append(cases, genOrbitPositions(rng, twoOrbits[:4], []int{rng.IntN(3)}, 1)...)
-	cases = append(cases, genMidWindow(rng, 150)...)
-	cases = append(cases, genRandomCF(rng, 500)...)
-	cases = append(cases, genASCIICF(rng, 400)...)
-	cases = append(cases, genInvalidCF(rng, 400)...)
-	cases = append(cases, genST(rng, 800)...)
-	cases = append(cases, genStd(rng, 700)...)
+	cases = append(cases, genMidWindow(rng, 600)...)
+	cases = append(cases, genWidthCompensated(rng, 1200)...)
+	cases = append(cases, genRandomCF(rng, 2000)...)
+	cases = append(cases, genASCIICF(rng, 1200)...)
+	cases = append(cases, genInvalidCF(rng, 1200)...)
+	cases = append(cases, genST(rng, 2000)...)
+	cases = append(cases, genStd(rng, 1500)...)
 	return cases
 }
 
